@@ -243,6 +243,13 @@ func manyFiles(r *rand.Rand, id string) Case {
 			Subject: subjects[i%len(subjects)], Cctype: cctypes[i%len(subjects)],
 			Ops: []Op{{Op: "add", Path: fmt.Sprintf("src/f%02d.txt", i), Add: 1 + r.Intn(4)}}})
 	}
+	// the first authors commit again after the last one has appeared (their counts grow after the author table has
+	// reached its final size)
+	for i := 0; i < 3+r.Intn(3); i++ {
+		c.History = append(c.History, Commit{Author: fmt.Sprintf("Dev %02d", i), Date: fmt.Sprintf("2021-03-%02d", 1+i),
+			Subject: subjects[i%4], Cctype: cctypes[i%4],
+			Ops: []Op{{Op: "modify", Path: fmt.Sprintf("src/f%02d.txt", i), Add: 1 + r.Intn(2), Del: 0}}})
+	}
 	return c
 }
 
